@@ -414,6 +414,10 @@ func ruleP5(r *Run) {
 				}
 			}
 			if sel == nil {
+				if ss, isSend := m.(*ast.SendStmt); isSend && handOverSend(pkg, fd, ss) {
+					r.Ok(key, pos, "the one send into a buffered channel that this function has taken out of the table (Pop): it does not wait")
+					return true
+				}
 				r.Viol(key, pos, fmt.Sprintf("blocking %s on the call path is not a case of a select: the call cannot be cancelled or time out while it waits here", what))
 				return true
 			}
@@ -443,6 +447,73 @@ func ruleP5(r *Run) {
 			return true
 		})
 	}
+}
+
+// handOverSend: the send hands a value to a parked party and cannot wait - the channel is a local obtained by an exclusive
+// removal from a table (x, ok := table.Pop(id); ch := x.(chan T)), every make of that channel type in the package has a
+// constant capacity >= 1, and it is the only send statement on that variable in the function.
+func handOverSend(pkg *packages.Package, fd *ast.FuncDecl, ss *ast.SendStmt) bool {
+	info := pkg.TypesInfo
+	ch := identObj(info, ss.Chan)
+	if ch == nil {
+		return false
+	}
+	sends := 0
+	popped := false
+	ast.Inspect(fd.Body, func(n ast.Node) bool {
+		switch x := n.(type) {
+		case *ast.SendStmt:
+			if identObj(info, x.Chan) == ch {
+				sends++
+			}
+		case *ast.AssignStmt:
+			if len(x.Lhs) != 1 || len(x.Rhs) != 1 || identObj(info, x.Lhs[0]) != ch {
+				return true
+			}
+			ta, ok := ast.Unparen(x.Rhs[0]).(*ast.TypeAssertExpr)
+			if !ok {
+				return true
+			}
+			src := identObj(info, ta.X)
+			if src == nil {
+				return true
+			}
+			ast.Inspect(fd.Body, func(q ast.Node) bool {
+				as, ok := q.(*ast.AssignStmt)
+				if !ok || len(as.Rhs) != 1 || len(as.Lhs) == 0 || identObj(info, as.Lhs[0]) != src {
+					return true
+				}
+				if c, ok := ast.Unparen(as.Rhs[0]).(*ast.CallExpr); ok && refName(methodName(c)) == "Pop" {
+					popped = true
+				}
+				return true
+			})
+		}
+		return true
+	})
+	if sends != 1 || !popped {
+		return false
+	}
+	makes, buffered := 0, 0
+	for _, file := range pkg.Syntax {
+		ast.Inspect(file, func(n ast.Node) bool {
+			c, ok := n.(*ast.CallExpr)
+			if !ok || !IsBuiltin(info, c, "make") || len(c.Args) == 0 {
+				return true
+			}
+			if t := info.TypeOf(c.Args[0]); t == nil || !types.Identical(t, ch.Type()) {
+				return true
+			}
+			makes++
+			if len(c.Args) == 2 {
+				if v, ok := intConst(info, c.Args[1]); ok && v >= 1 {
+					buffered++
+				}
+			}
+			return true
+		})
+	}
+	return makes > 0 && makes == buffered
 }
 
 // ---------------------------------------------------------------------------------------
@@ -1365,7 +1436,6 @@ func ruleL7(r *Run) {
 
 	r.Ok("functions with slice parameters scanned", 0, fmt.Sprintf("%d functions, no append into parameter storage", nChecked))
 }
-
 
 // localConst: the integer constant an expression stands for - a constant expression, or a local declared once with one
 func localConst(info *types.Info, body ast.Node, e ast.Expr) (int64, bool) {
